@@ -90,8 +90,18 @@ def load_known():
 
 
 def work(prop, master, idxs, tier, faults):
-    """Worker: a chunk of runs, aggregated."""
+    """Worker: one chunk of runs.  The library is re-imported first, so that every
+    chunk starts from the same pristine library state (module-level caches, mutable
+    default arguments, class attributes inside PyFVTool): what a run sees then
+    depends on the earlier runs *of its chunk* only, which are recorded with a
+    violation, and not on which chunks this pool worker happened to execute before."""
+    A.reset()
+    return _work_chunk(prop, master, idxs, tier, faults)
+
+
+def _work_chunk(prop, master, idxs, tier, faults):
     faulthandler.dump_traceback_later(900, exit=True)
+    chunk_ops = []
     agg = {"runs": 0, "ops": 0, "stats": Counter(), "probes": Counter(),
            "oracle": Counter(), "digests": {}, "trans": set(), "viol": [],
            "samples": [], "errors": [], "known": Counter(), "wall": 0.0, "notes": [],
@@ -107,6 +117,7 @@ def work(prop, master, idxs, tier, faults):
         agg["runs"] += 1
         agg["ops"] += len(r["ops"])
         agg["wall"] += r["wall"]
+        chunk_ops.append(r["ops"])
         agg["stats"].update(r["stats"])
         agg["probes"].update(r["probes"])
         agg["oracle"].update(r["oracle_runs"])
@@ -119,7 +130,8 @@ def work(prop, master, idxs, tier, faults):
         if r["violation"]:
             agg["viol"].append({"seed": seed, "i": i, "faults": faults,
                                 "vclass": list(r["vclass"]), "violation": r["violation"],
-                                "ops": r["ops"], "swarm": r["swarm"]})
+                                "ops": r["ops"], "swarm": r["swarm"],
+                                "prefix": [list(o) for o in chunk_ops[:-1]]})
         elif len(agg["samples"]) < 1 and gated > 0 and len(r["ops"]) <= 40:
             agg["samples"].append({"seed": seed, "faults": faults, "ops": r["ops"],
                                    "digest": r["digest"]})
@@ -204,7 +216,7 @@ def run_batch(prop, tier, master, n_ff, n_f, workers, deadline, strata=()):
     return total
 
 
-def write_replay(prop, v, ops, digest=None, cross=False):
+def write_replay(prop, v, ops, digest=None, cross=False, runs=None):
     rdir = os.environ.get("VERIF_REPLAY_DIR", os.path.join(HERE, "replays"))
     os.makedirs(rdir, exist_ok=True)
     tag = "xproc-" if v["faults"] == "xproc" else \
@@ -215,6 +227,9 @@ def write_replay(prop, v, ops, digest=None, cross=False):
            "vclass": v["vclass"], "digest": digest}
     if cross:
         doc["cross_interpreter"] = True
+    if runs is not None:
+        doc["multi_run"] = True
+        doc["runs"] = runs
     with open(path, "w") as f:
         json.dump(doc, f, indent=1, default=str)
     return path
@@ -224,6 +239,10 @@ def replay_file(path, quiet=False):
     with open(path) as f:
         doc = json.load(f)
     prop = doc["property"]
+    if doc.get("multi_run"):
+        # earlier runs of the chunk first, each in its own world, in this process
+        for ops in doc["runs"][:-1]:
+            R.replay(prop, ops)
     r = R.replay(prop, doc["ops"])
     same_cls = r["vclass"] is not None and list(r["vclass"]) == list(doc["vclass"])
     if not quiet:
@@ -240,6 +259,94 @@ def fresh_replay_ok(path):
     p = subprocess.run([sys.executable, os.path.join(HERE, "check.py"), "--replay", path],
                        capture_output=True, text=True, env=env, timeout=600)
     return p.returncode == 1 and "VIOLATION" in p.stdout and "digest-match=yes" in p.stdout
+
+
+# --------------------------------------------------------------------------
+# violations that need the earlier runs of their chunk (process-global state
+# inside the library): multi-run replay
+# --------------------------------------------------------------------------
+
+def _xchunk(prop, runs):
+    """Execute op lists one after the other (one World each) in ONE fresh
+    interpreter; returns [[vclass or None, digest], ...]."""
+    import tempfile
+    with tempfile.NamedTemporaryFile("w", suffix=".json", delete=False, dir="/tmp") as f:
+        json.dump({"property": prop, "runs": runs}, f, default=str)
+        path = f.name
+    try:
+        env = dict(os.environ, PYTHONHASHSEED="0")
+        p = subprocess.run([sys.executable, os.path.join(HERE, "check.py"), "--xchunk", path],
+                           capture_output=True, text=True, env=env, timeout=1800)
+        if p.returncode != 0:
+            raise RuntimeError("xchunk failed: " + p.stderr[-1500:])
+        return json.loads(p.stdout.strip().splitlines()[-1])
+    finally:
+        try:
+            os.unlink(path)
+        except OSError:
+            pass
+
+
+def run_chunk_here(prop, runs):
+    out = []
+    for ops in runs:
+        r = R.replay(prop, ops)
+        out.append([list(r["vclass"]) if r["vclass"] else None, r["digest"], r["violation"]])
+    return out
+
+
+def multi_shrink(prop, prefix, ops, vclass, budget=60):
+    """The violation of the last run needs earlier runs of its chunk.  Minimise the
+    list of runs (drop whole runs, then ddmin inside each remaining run), every
+    candidate evaluated in a fresh interpreter.  Returns the list of op lists or
+    None if the chunk does not reproduce the class from a pristine process."""
+    def clean(o):
+        o = [dict(x) for x in o]
+        for x in o:
+            x.pop("task", None)
+        return o
+    runs = [clean(o) for o in prefix] + [clean(ops)]
+    state = {"budget": budget}
+
+    def fails(cand):
+        if state["budget"] <= 0:
+            return False
+        state["budget"] -= 1
+        try:
+            res = _xchunk(prop, cand)
+        except Exception:
+            return False
+        return res[-1][0] is not None and tuple(res[-1][0]) == tuple(vclass)
+    if not fails(runs):
+        return None
+    # drop whole earlier runs, last first
+    i = len(runs) - 2
+    while i >= 0 and state["budget"] > 0:
+        cand = runs[:i] + runs[i + 1:]
+        if fails(cand):
+            runs = cand
+        i -= 1
+    # halve the op lists of the remaining runs (coarse ddmin, tail first for earlier runs)
+    for k in range(len(runs)):
+        n = 2
+        while len(runs[k]) >= 2 and state["budget"] > 0:
+            chunk = max(1, len(runs[k]) // n)
+            reduced = False
+            i = 0
+            while i < len(runs[k]) and state["budget"] > 0:
+                cand_ops = runs[k][:i] + runs[k][i + chunk:]
+                cand = runs[:k] + [cand_ops] + runs[k + 1:]
+                if cand_ops and fails(cand):
+                    runs[k] = cand_ops
+                    n = max(n - 1, 2)
+                    reduced = True
+                else:
+                    i += chunk
+            if not reduced:
+                if chunk == 1:
+                    break
+                n = min(len(runs[k]), n * 2)
+    return runs
 
 
 # --------------------------------------------------------------------------
@@ -420,9 +527,33 @@ def check_property(prop, tier, master, n_ff, n_f, workers, strat_scale=1.0):
     for vclass, v in list(classes.items())[:6]:
         ops = shrink(prop, v["ops"], vclass, 300 if tier == "quick" else 800)
         if ops is None:
-            tot["errors"].append({"tb": "violation did not replay from its op list: %r seed=%d"
-                                  % (vclass, v["seed"])})
+            # not reproducible from its own op list: does it need the earlier runs of
+            # its chunk (state that lives in the library's modules, not in any object)?
+            runs = multi_shrink(prop, v.get("prefix") or [], v["ops"], vclass) \
+                if v.get("prefix") else None
+            if runs is None:
+                tot["errors"].append({"tb": "violation did not replay from its op list: %r seed=%d"
+                                      % (vclass, v["seed"])})
+                continue
+            res = _xchunk(prop, runs)
+            v2 = dict(v, violation=res[-1][2] if len(res[-1]) > 2 else v["violation"])
+            path = write_replay(prop, v2, runs[-1], res[-1][1], runs=runs)
+            if not fresh_replay_ok(path):
+                tot["errors"].append({"tb": "multi-run replay file does not reproduce in a fresh "
+                                            "interpreter: " + path})
+                continue
+            nviol += 1
+            replays.append({"class": list(vclass), "replay": path, "ops": sum(len(r_) for r_ in runs),
+                            "original_ops": sum(len(o) for o in v["prefix"]) + len(v["ops"]),
+                            "seed": v["seed"], "runs": len(runs),
+                            "runs_hit": sum(1 for x in tot["viol"] if tuple(x["vclass"]) == vclass)})
+            print("violation class %s seed=%d needs %d earlier run(s) of its chunk in the same "
+                  "process (state kept inside the library's modules); minimised to %d runs, %d ops"
+                  % ("/".join(vclass), v["seed"], len(v["prefix"]), len(runs),
+                     sum(len(r_) for r_ in runs)))
+            print("VIOLATION property=%s replay=%s" % (prop, path), flush=True)
             continue
+        A.reset()
         rr = R.replay(prop, ops)
         v2 = dict(v, violation=rr["violation"])
         path = write_replay(prop, v2, ops, rr["digest"])
@@ -593,6 +724,7 @@ def main():
     ap.add_argument("--replay")
     ap.add_argument("--selftest")
     ap.add_argument("--digests")
+    ap.add_argument("--xchunk", help="internal: execute several op lists in this process, print classes")
     ap.add_argument("--xrun", help="internal: execute the op lists of a JSON file, print event digests")
     ap.add_argument("--n", type=int, default=16)
     ap.add_argument("--no-evidence", action="store_true",
@@ -612,6 +744,12 @@ def main():
         os.makedirs(os.path.join(HERE, "replays"), exist_ok=True)
         print("setup ok: numpy %s scipy %s pyfvtool %s from %s"
               % (numpy.__version__, scipy.__version__, pf.__version__, A.src_dir()))
+        return 0
+    if a.xchunk:
+        A.load()
+        with open(a.xchunk) as f:
+            doc = json.load(f)
+        print(json.dumps(run_chunk_here(doc["property"], doc["runs"]), default=str))
         return 0
     if a.xrun:
         A.load()
